@@ -444,7 +444,7 @@ UNMODELLED = {"IMPLICIT_DOWNCAST", "AMBIG_IMPLICIT_DOWNCAST"}
 
 # codes whose message text is garbage on trees without fixes/C20-5 (finding arg:GROUP_REF_UNEXPECTED_TYPE): presence, file and line
 # are compared, the text is judged by C20's oracle
-TEXT_BY_ORACLE_ONLY = {"GROUP_REF_UNEXPECTED_TYPE"}
+TEXT_BY_ORACLE_ONLY = set()
 
 
 def canon(diags, with_lines=True, drop=ORDER_DEPENDENT):
